@@ -513,4 +513,37 @@ MUTANTS = [
     {"id": "c20-axum-body-empty", "props": ["C20"], "edits": [("src/axum/serde_json.rs", "        (StatusCode::BAD_REQUEST, self.to_string()).into_response()", "        (StatusCode::BAD_REQUEST, String::new()).into_response()")]},
     {"id": "c20-axum-null-is-ok", "props": ["C20"], "edits": [("src/axum/serde_json.rs", "        let data = deserr::deserialize::<_, _, _>(value)?;", "        let value = if value.is_null() { serde_json::json!({}) } else { value };\n        let data = deserr::deserialize::<_, _, _>(value)?;")]},
     {"id": "c20-query-error-swallowed", "props": ["C20"], "edits": [("src/actix_web/query_parameters.rs", "            .map(ok)\n            .unwrap_or_else(err)", "            .map(ok)\n            .unwrap_or_else(|e| err(actix_web::error::ErrorBadRequest(e.to_string())))")]},
+    # ------------------------------------------------------------------ C14
+    {"id": "c14-missing-field-no-location", "props": ["C14"], "edits": [("src/errors/json.rs", '                format!("Missing field `{field}`{location}")', '                let _ = &location;\n                format!("Missing field `{field}`")')]},
+    {"id": "c14-unexpected-no-location", "props": ["C14"], "edits": [("src/errors/json.rs", '                format!("Invalid value{location}: {msg}")', '                let _ = &location;\n                format!("Invalid value: {msg}")')]},
+    {"id": "c14-did-you-mean-empty-list", "props": ["C14"], "edits": [("src/errors/json.rs", "                    did_you_mean(key, accepted),", "                    did_you_mean(key, &[]),")]},
+    {"id": "c14-accepted-take-3", "props": ["C14"], "edits": [("src/errors/json.rs", """                    key,
+                    did_you_mean(key, accepted),
+                    accepted
+                        .iter()""", """                    key,
+                    did_you_mean(key, accepted),
+                    accepted
+                        .iter()
+                        .take(3)""")]},
+    {"id": "c14-rec-key-before-prev", "props": ["C14"], "edits": [("src/errors/json.rs", '            ValuePointerRef::Key { key, prev } => rec(*prev) + "." + key,', '            ValuePointerRef::Key { key, prev } => String::from(".") + key + &rec(*prev),')]},
+    {"id": "c14-index-from-prev", "props": ["C14"], "edits": [("src/errors/json.rs", '            ValuePointerRef::Index { index, prev } => format!("{}[{index}]", rec(*prev)),', '            ValuePointerRef::Index { index: _, prev } => format!("{}[{}]", rec(*prev), matches!(prev, ValuePointerRef::Origin) as usize),')]},
+    {"id": "c14-badlen-expected-twice", "props": ["C14"], "edits": [("src/errors/json.rs", """                    location,
+                    len,
+                    expected,
+                    serde_json::to_string""", """                    location,
+                    expected,
+                    expected,
+                    serde_json::to_string""")]},
+    {"id": "c14-query-always-dot", "props": ["C14"], "edits": [("src/errors/query_params.rs", "                if matches!(prev, ValuePointerRef::Origin) {", "                if matches!(prev, ValuePointerRef::Index { .. }) {")]},
+    {"id": "c14-query-unknown-value-other-location", "props": ["C14"], "edits": [("src/errors/query_params.rs", """                let location = location_query_param_description(location, " for parameter");
+                format!(
+                    "Unknown value `{}`{location}: {}expected one of {}",""", """                let location = location_query_param_description(ValuePointerRef::Origin, " for parameter");
+                format!(
+                    "Unknown value `{}`{location}: {}expected one of {}",""")]},
+    {"id": "c14-value-kind-of-other", "props": ["C14"], "edits": [("src/errors/json.rs", "                serde_json::to_string(v).unwrap()\n            )\n        }\n    }\n}", "                serde_json::to_string(&serde_json::Value::Null).unwrap()\n            )\n        }\n    }\n}")]},
+    {"id": "c14-merge-at-origin", "props": ["C14"], "edits": [("src/errors/json.rs", """                msg: other.to_string(),
+            },
+            merge_location,""", """                msg: other.to_string(),
+            },
+            ValuePointerRef::Origin,""")]},
 ]
